@@ -1,4 +1,85 @@
+(* C11 — The sorted set agrees with a reference ranking under any operation sequence.
+   Only the property theorems: each is closed by an exact lemma and followed by Print
+   Assumptions.  [run empty ops] is the model of zset.go / zskiplist.go (C11/Model.v, stage 1:
+   level-0 scans with the code's comparisons, the member table in step); [spec_run [] ops] is
+   the reference: a table of (score, member) entries whose answers are read off the table
+   sorted by score and then by member (C11/Spec.v). *)
 From Coq Require Import ZArith List Bool.
 From FV Require Import C11.Spec C11.Model C11.Proofs.
 Import ListNotations.
 Open Scope Z_scope.
+
+(* "After any sequence of adds, score updates, single removals and range removals by score or
+   by rank, the set's size, every member's score and rank (ascending and descending), range
+   queries by rank and by score in both directions, and in-range counts all agree with a list
+   of the members sorted by score and then by member order":
+   every call of every history (Add, Remove, RemoveRangeByScore, RemoveRangeByRank, Count,
+   GetRank, GetScore, GetRange, GetRangeByScore, Len) returns what the reference returns, and
+   afterwards the node list is the reference ranking. *)
+Theorem c11_refines_ranking :
+  forall ops : list op,
+    let '(z, outs) := run empty ops in
+    let '(st, souts) := spec_run [] ops in
+    outs = souts /\ zsl z = ranking st /\ zlen (zsl z) = zlen st.
+Proof. exact refines_ranking. Qed.
+Print Assumptions c11_refines_ranking.
+
+(* "Score ranges include both end points in every operation that takes one": on every
+   reachable state Count, GetRangeByScore and RemoveRangeByScore select exactly the entries
+   with min <= score <= max (in_score) *)
+Theorem c11_inclusive_ends :
+  forall (ops : list op) (min max : Z),
+    let z := fst (run empty ops) in
+    let inside := filter (in_score min max) (zsl z) in
+    count z min max = zlen inside /\
+    (forall reverse, get_range_by_score z min max reverse =
+                     OList (if reverse then rev (map member inside) else map member inside)) /\
+    (let '(z', o) := rem_by_score z min max in
+     o = OInt (zlen inside) /\
+     forall x, In x (zsl z') <-> In x (zsl z) /\ ~ (min <= score x <= max)).
+Proof. exact inclusive_ends. Qed.
+Print Assumptions c11_inclusive_ends.
+
+Theorem c11_in_score_is_inclusive :
+  forall min max x, in_score min max x = true <-> min <= score x <= max.
+Proof. exact in_score_spec. Qed.
+Print Assumptions c11_in_score_is_inclusive.
+
+(* "negative rank indices count from the end": in the reference, which the code is proved to
+   follow, the rank range (-k, -j) is the ranks len-k .. len-j *)
+Theorem c11_negative_ranks :
+  forall len k j, 1 <= j <= k -> k <= len -> norm_range len (- k) (- j) = Some (len - k, len - j).
+Proof. exact norm_range_negative. Qed.
+Print Assumptions c11_negative_ranks.
+
+(* the member -> score table stays in step with the node list: same entries, and no member
+   twice *)
+Theorem c11_dict_in_step :
+  forall ops : list op,
+    let z := fst (run empty ops) in
+    let st := fst (spec_run [] ops) in
+    (forall e, dict_get (dict z) e = lookup e st) /\
+    (forall e s, dict_get (dict z) e = Some s <-> In (s, e) (zsl z)) /\
+    NoDup (map member (zsl z)).
+Proof. exact dict_in_step. Qed.
+Print Assumptions c11_dict_in_step.
+
+(* no call of any history dereferences nil (Add's znode.Ele after a failed Delete, the walks
+   of GetRange) *)
+Theorem c11_no_runtime_panic :
+  forall ops : list op, ~ In OCrash (snd (run empty ops)).
+Proof. exact no_runtime_panic. Qed.
+Print Assumptions c11_no_runtime_panic.
+
+(* non-vacuity: the history of defect 20 — scores {10, 20, 30}, RemoveRangeByScore(10, 20)
+   removes the two members at 10 and 20 — and ties, negative ranks, reverse ranges *)
+Example c11_example :
+  let ops := [Add 1 10; Add 2 20; Add 3 30; Add 4 20; Count 10 20; GetRank 4 false; GetRank 4 true;
+              GetRange (-2) (-1) false; GetRange 0 9 true; GetRangeByScore 20 30 true;
+              RemByScore 10 20; Len; Add 3 5; RemByRank (-1) (-1); GetScore 3] in
+  snd (run empty ops) =
+    [OBool true; OBool true; OBool true; OBool true; OInt 3; OInt 2; OInt 1;
+     OList [4; 3]; OList [3; 4; 2; 1]; OList [3; 4; 2];
+     OInt 3; OInt 1; OBool true; OInt 1; OInt 0] /\
+  snd (run empty ops) = snd (spec_run [] ops).
+Proof. vm_compute. split; reflexivity. Qed.
